@@ -9,7 +9,7 @@ PROPS = {
                 "edits, single entry point for edits, no inherited list mutator, injective dedup ids, snapshot order",
         not_decided="the numeric equality edited-vs-rebuilt; instance-level reachability through pre-change links"),
     "C02": dict(
-        rules=["R-AGG", "R-DEG", "R-ACCUM"],
+        rules=["R-AGG", "R-DEG", "R-ACCUM", "R-LEAK"],
         decided="structure of the aggregation: the four category dicts agree on keys, collections, attributes and "
                 "deduplication; every footprint-bearing class is covered; footprint = energy x intensity (degree rows)",
         not_decided="finiteness and sign of the values"),
@@ -24,7 +24,7 @@ PROPS = {
                 "active <= nb; the fixed instance count is compared against the need before it is used",
         not_decided="every >= inequality numerically; float cancellation in the storage negativity check"),
     "C05": dict(
-        rules=["R-TXN:sim", "R-MIRROR", "R-ZIP", "R-WRITE"],
+        rules=["R-TXN:sim", "R-MIRROR", "R-ZIP", "R-WRITE", "R-REPLACE-SYM", "R-EDGE"],
         decided="exceptional exits of a simulation restore what was replaced; set/reset are mirror images; "
                 "baseline/simulated lists are built in lockstep; rules write only their own attribute",
         not_decided="identity of every object after arbitrary toggle sequences"),
@@ -59,7 +59,7 @@ PROPS = {
                 "series; every other rule reads the UTC attribute",
         not_decided="totals, DST merging, offsets (pandas/pytz runtime semantics)"),
     "C12": dict(
-        rules=["R-DEG"],
+        rules=["R-DEG", "R-LEAK"],
         decided="homogeneity degree of each footprint formula in each documented driver, and independence rows",
         not_decided="floating-point exactness of k*x"),
     "C13": dict(
@@ -74,7 +74,7 @@ PROPS = {
                 "overrides delegate",
         not_decided="nothing stated as undecided; the checks are structural"),
     "C15": dict(
-        rules=["R-TXN:recompute"],
+        rules=["R-TXN:recompute", "R-EDGE"],
         decided="an exception leaving the recompute loop restores every value already replaced",
         not_decided="behaviour of arbitrary later histories"),
     "C16": dict(
@@ -94,7 +94,7 @@ PROPS = {
                 "value-changing in-place call on model state, read-only views",
         not_decided="determinism of pint/pandas (trusted)"),
     "C19": dict(
-        rules=["R-SEL", "R-IDFLOW"],
+        rules=["R-SEL", "R-IDFLOW", "R-LEAK"],
         decided="positional selection from hash-ordered collections only at proven-singleton sites; identity never "
                 "flows into values",
         not_decided="last-ulp effects of summation order over set-ordered collections (listed, not alarmed)"),
